@@ -59,14 +59,17 @@ abbrev Cache := List ((Str × Str) × Str)
 /-- `shell cmd dir env`: what the command prints -/
 abbrev Shell := Str → Str → Env → Str
 
-/-- what surrounds the resolution: the shell and the process environment -/
+/-- what surrounds the resolution: the shell, the process environment and whether the
+env-precedence experiment (`TASK_X_ENV_PRECEDENCE=1`) is on -/
 structure World where
   shell : Shell
   osEnv : Env := []
+  prec : Bool := false
 
 /-- the environment handed to an `sh:` command (`env.GetFromVars(result)`): the process
-environment plus the resolved variables it does not already set -/
-def shEnv (w : World) (e : Env) : Env := commandEnv w.osEnv e false
+environment plus the resolved variables it does not already set — or, under the
+env-precedence experiment, plus ALL resolved variables, which then win -/
+def shEnv (w : World) (e : Env) : Env := commandEnv w.osEnv e w.prec
 
 /-- `HandleDynamicVar`: empty command ⇒ empty; cached ⇒ cached value; else run and cache -/
 def dynamic (shell : Shell) (c : Cache) (cmd dir : Str) (e : Env) : Str × Cache :=
@@ -81,12 +84,13 @@ def evalDef (w : World) (dir : Str) (e : Env) (c : Cache) : VarDef → Str × Ca
   | .refv n => (get e n, c)
   | .sh ps ov => dynamic w.shell c (render e ps) (ov.getD dir) (shEnv w e)
 
-/-- a block of definitions evaluated in order in one directory -/
-def evalBlock (w : World) (dir : Str) : List (Name × VarDef) → Env → Cache → Env × Cache
+/-- a block of definitions evaluated in order; the directory an `sh:` definition runs in may depend on
+what has been resolved when it is reached (`dirf`) -/
+def evalBlock (w : World) (dirf : Env → Str) : List (Name × VarDef) → Env → Cache → Env × Cache
   | [], e, c => (e, c)
   | (n, d) :: rest, e, c =>
-    let (v, c') := evalDef w dir e c d
-    evalBlock w dir rest (set e n v) c'
+    let (v, c') := evalDef w (dirf e) e c d
+    evalBlock w dirf rest (set e n v) c'
 
 /-- the sites at which a variable can be defined, in the order `getVariables` processes them -/
 inductive Site
@@ -106,42 +110,52 @@ deriving Repr
 structure Ctx where
   rootDir : Str
   taskDirTpl : List Part          -- the task's `dir:` (a template), joined to the root
-  dirAfter : Nat                  -- number of layers processed before the task dir is resolved
+  home : Str := []                -- `$HOME`, for a `dir:` that starts with `~`
 
 /-- `filepathext.SmartJoin`: an absolute second path wins -/
 def joinDir (root rel : Str) : Str :=
   if rel = [] then root else if rel.head? = some 47 then rel else root ++ [47] ++ rel
 
-/-- resolution state: the task directory once resolved, the variables, the dynamic cache -/
+/-- `execext.ExpandLiteral` on the forms that occur: `~` and `~/…` -/
+def expandTilde (home s : Str) : Str :=
+  match s with
+  | [126] => home
+  | 126 :: 47 :: r => home ++ 47 :: r
+  | _ => s
+
+/-- **the task's directory over the variables `e`**: the `dir:` template rendered, `~` expanded, joined to the
+root — what `compiledTask` computes over the FINAL variables for the task's commands, and what
+`getVariables` computes for an `sh:` variable of the task over the variables resolved WHEN IT IS REACHED
+(fix cd73a37; before, the directory was resolved once, after the include-statement layer,
+and never expanded: `Props.C11`, `C11_dir_old_rule_counterexample`) -/
+def taskDirOver (cx : Ctx) (e : Env) : Str := joinDir cx.rootDir (expandTilde cx.home (render e cx.taskDirTpl))
+
+/-- the directory in which an `sh:` definition of site `s` runs, given what is resolved so far -/
+def siteDirf (cx : Ctx) (s : Site) (e : Env) : Str := if s.inTaskDir then taskDirOver cx e else cx.rootDir
+
+/-- resolution state: the variables, the dynamic cache -/
 structure St where
-  td : Option Str
   env : Env
   cache : Cache
 
-/-- one layer; before it, the task directory is resolved if `dirAfter` layers have been processed -/
-def stepLayer (w : World) (cx : Ctx) (i : Nat) (s : St) (l : Layer) : St :=
-  let td' : Option Str := match s.td with
-    | some d => some d
-    | none => if i ≥ cx.dirAfter then some (joinDir cx.rootDir (render s.env cx.taskDirTpl)) else none
-  let dir := if l.site.inTaskDir then td'.getD cx.rootDir else cx.rootDir
-  let r := evalBlock w dir l.defs s.env s.cache
-  { td := td', env := r.1, cache := r.2 }
+def stepLayer (w : World) (cx : Ctx) (s : St) (l : Layer) : St :=
+  let r := evalBlock w (siteDirf cx l.site) l.defs s.env s.cache
+  { env := r.1, cache := r.2 }
 
-def runLayers (w : World) (cx : Ctx) : List Layer → Nat → St → St
-  | [], _, s => s
-  | l :: ls, i, s => runLayers w cx ls (i+1) (stepLayer w cx i s l)
+def runLayers (w : World) (cx : Ctx) : List Layer → St → St
+  | [], s => s
+  | l :: ls, s => runLayers w cx ls (stepLayer w cx s l)
 
 /-- `getVariables`: start from the process environment and the special variables -/
 def getVariables (w : World) (cx : Ctx) (base : Env) (layers : List Layer) (c : Cache) : St :=
-  runLayers w cx layers 0 { td := none, env := base, cache := c }
+  runLayers w cx layers { env := base, cache := c }
 
 /-- the order in which the documentation says the sites are consulted, lowest priority
 first (`Props.C10` proves the generated order of the loops in `getVariables` equals it) -/
 def docOrder : List Site :=
   [.taskfileEnv, .taskfileVars, .includeVars, .includedTaskfileVars, .callVars, .taskVars]
 
-/-- definitions per site → layers in documented order; the task directory is resolved
-after the global and include-statement layers (3 layers) -/
+/-- definitions per site → layers in documented order -/
 def layersOf (defs : Site → List (Name × VarDef)) : List Layer := docOrder.map (fun s => ⟨s, defs s⟩)
 
 /-! ### loops -/
